@@ -11,7 +11,7 @@ import shutil
 
 import numpy as np
 
-from .. import argguard, core, parsers
+from .. import argguard, core, mapsys, parsers
 
 PROPS = ["C11_DiskLayout", "C11_SpellingIrrelevant", "C11_ArgumentsKept", "C11_RoundTrip", "C11_ReadLayout", "C11_ConvertPreserves", "C11_ConvertNegates",
          "C11_NoClobber", "C11_DefaultNames"]
@@ -670,6 +670,8 @@ def replay(ctx, case):
         run_behaviour(ctx, case["hist"], case["variant"], case["vseed"])
     elif case["kind"] == "float":
         run_float(ctx, [case])
+    elif case["kind"] == "mapsys":
+        mapsys.replay(ctx, case)
     else:
         raise core.MachineryError("unknown case kind %r" % case.get("kind"))
 
@@ -799,3 +801,9 @@ def run(ctx):
             cases.append(gen_float_case(rng, len(cases) + 1, 4, force_shape=sh))
         ctx.extra["shape_sweep"] = "every shape of (1..%d)^3" % top
         run_float(ctx, cases)
+
+    # ---- composition: mixed histories on a pool of live maps and files, validated by MapSysTrace.tla in scope "io"
+    # (IO / conversion steps judged with the C11 clauses; windowing, mask algebra, thresholding steps only re-synchronise)
+    if not only or "mixed" in only:
+        scope = os.environ.get("VERIF_MAPSYS_SCOPE", "io")            # (calibration aid: "all" judges every relation)
+        mapsys.run(ctx, scope, ctx.pick(150, 3000))
